@@ -8,7 +8,7 @@ by the C++ harness):
   sort  <keys> <n> <vals> [<xml-hex> <xsl-hex>]      model: processing order with position()/last()
   check <keys> <n> <vals> <order>                    specification predicate on an observed order
   sortu <keys> <n> <vals> <matrix> [<xml-hex> <xsl-hex>]   as `sort`; text values are `s<i>` = i-th string of a table whose
-  checku <keys> <n> <vals> <matrix> <order>                collation is the m×m sign matrix (`-`,`0`,`+`, row-major;
+  checku <keys> <n> <vals> <matrix> <order>                collation is, per key (`;`-separated, `-` for number keys), the m×m sign matrix (`-`,`0`,`+`, row-major;
                                                            string 0 is the empty string) answered by the library's ICU functor
   collcheck <matrix>                                 is the matrix a three-way total preorder (hypothesis CollationOK on the sample)
   coll …                                             (harness only; the model answers `-`)
@@ -69,8 +69,8 @@ structure Case where
   keys? : Option (List Key)
   n : Nat
   rows : Array (Array Val)
-  /-- collation table (sortu/checku); `none` = code-unit order -/
-  table : Option (Nat × List Int) := none
+  /-- collation tables, one per key (sortu/checku; an empty table for number keys); `none` = code-unit order -/
+  table : Option (List (Nat × List Int)) := none
 
 def Case.keys (c : Case) : List Key := c.keys?.getD []
 
@@ -86,13 +86,14 @@ def parseCase (keys n vals : String) : Option Case := do
 
 def parseCaseU (keys n vals mat : String) : Option Case := do
   let c ← parseCase keys n vals
-  let m ← parseMatrix mat
-  some { c with table := some (isqrt m.length, m) }
+  let ms ← (mat.splitOn ";").mapM fun t => if t = "-" then some [] else parseMatrix t
+  if ms.length ≠ c.raws.length then none
+  else some { c with table := some (ms.map fun m => (isqrt m.length, m)) }
 
 def Case.env (c : Case) : Env Nat where
-  scmp := fun _ a b => match c.table with
+  scmp := fun k a b => match c.table with
     | none => strCompare a b
-    | some (m, mat) => tableCmp m mat a b
+    | some ts => let (m, mat) := ts.getD k (0, []); tableCmp m mat a b
   num := fun k i => match (c.rows.getD i #[]).getD k (Val.num Dbl.nan) with
     | .num d => d
     | .txt _ => Dbl.nan
@@ -116,7 +117,9 @@ def doSort (c : Case) : String :=
       -- merge-sort model it is proved equal to (Props.C16.sortNodesM_eq_sortNodes)
       let (caches, sorted) := if c.n ≤ 400 then sortNodesM env keys nodes else (Caches.empty, pure)
       let verdict := specVerdict (fun a b => specCompare env keys 0 a b) c.n sorted
-      s!"out {showTriples (process sorted)} evals={caches.numEvals.length + caches.strEvals.length} pure={if pure = sorted then "same" else "DIFF"} spec={verdict}"
+      -- the libstdc++-shaped algorithm must agree as well (Props.C16.libStableSort_contract)
+      let lib := sortNodesLib env keys nodes
+      s!"out {showTriples (process sorted)} evals={caches.numEvals.length + caches.strEvals.length} pure={if pure = sorted && lib = sorted then "same" else "DIFF"} spec={verdict}"
   else
     s!"out {showTriples (process nodes)} evals=0 pure=same spec=ok"
 
